@@ -5,6 +5,7 @@ exit 1  VIOLATION property=<id> replay=<path>   (not listed in known_findings.js
 exit 2  harness trouble (never a pass, never a violation)
 """
 
+import fnmatch
 import json
 import os
 import subprocess
@@ -204,9 +205,14 @@ def run_check(engine, tier, extra_cfg=None):
     known_hits = []
     harness_trouble = list(agg.harness_errors)
     for want, lst in sorted(groups.items(), key=lambda kv: str(kv[0])):
-        entry = next((e for e in known if e.get("cls") == want[0] and e.get("key") == want[1]), None)
+        entry = next((e for e in known if fnmatch.fnmatchcase(str(want[0]), e.get("cls", "")) and fnmatch.fnmatchcase(str(want[1]), e.get("key", ""))), None)
         if entry is not None:
-            known_hits.append((entry, len(lst)))
+            for i, (e0, c0, ks) in enumerate(known_hits):
+                if e0 is entry:
+                    known_hits[i] = (e0, c0 + len(lst), ks + [want])
+                    break
+            else:
+                known_hits.append((entry, len(lst), [want]))
             continue
         if len(new_violations) >= getattr(engine, "max_minimised", 5):
             new_violations.append((want, None, len(lst)))
@@ -250,7 +256,7 @@ def run_check(engine, tier, extra_cfg=None):
         "stats": agg.group("stats"),
         "components": engine.components,
         "harness_errors": len(harness_trouble),
-        "known_findings_hit": [{"key": e["key"], "episodes": c} for e, c in known_hits],
+        "known_findings_hit": [{"key": e["key"], "episodes": c, "classes": [list(k) for k in ks]} for e, c, ks in known_hits],
     }
     cov.update(extra)
     doc = {
@@ -274,7 +280,7 @@ def run_check(engine, tier, extra_cfg=None):
     )
     print("faults:", canon(agg.group("faults")))
     print("probes:", canon(agg.group("probes")))
-    for e, c in known_hits:
+    for e, c, ks in known_hits:
         print("KNOWN-FINDING: property=%s %s [key=%s, %d episodes]" % (engine.prop, e.get("what", ""), e["key"], c))
     for want, path, cnt in new_violations:
         if path is not None:
